@@ -643,6 +643,6 @@ pub fn def() -> CheckDef {
                set after every op); locked positions must refuse decrease / reposition and must allow collects.  Non-trivial = lifecycle with a lock or bundle \
                op and >=1 predicted rejection.",
         assumptions: vec!["nsvm runtime as in DESIGN.md §5", "the Metaplex CPI of *_with_metadata is a stub; nothing is asserted about metadata accounts"],
-        subs: vec![sub("lifecycles", 4000, 150_000, case_strategy, |c: &LifeCase, l: &mut Local| check_case(c, l))],
+        subs: vec![sub("lifecycles", 40_000, 1_000_000, case_strategy, |c: &LifeCase, l: &mut Local| check_case(c, l))],
     }
 }
